@@ -242,6 +242,13 @@ def s6(ctx, rep):
     rep.put(ok, "S6", "agreement", "SimulatorBackend._advance_by_outside_time charges the real time since the last exit mark", a, None, "")
 
 
+def _ancestors(x):
+    p_ = getattr(x, "_parent", None)
+    while p_ is not None:
+        yield p_
+        p_ = getattr(p_, "_parent", None)
+
+
 def s7(ctx, rep):
     """a trial completes after its LAST result: the completion time derives from a running maximum over all result times"""
     from .common import broken_accumulators
@@ -258,6 +265,12 @@ def s7(ctx, rep):
            if isinstance(st, ast.Assign) and isinstance(st.value, ast.Call) and fn_name(st.value) == "max" and isinstance(st.targets[0], ast.Name)
            and any(isinstance(y, ast.Name) and y.id == st.targets[0].id for a in st.value.args for y in ast.walk(a))]
     ok = et is not None and len(acc) >= 1 and any(flows_into(f, et, lambda y, v=a_.targets[0].id: isinstance(y, ast.Name) and y.id == v) for a_ in acc)
+    if et is not None and not ok:
+        # equally good: the maximum of a collection of all result times, taken after the loop
+        def max_of_collection(y):
+            return isinstance(y, ast.Call) and fn_name(y) == "max" and len(y.args) == 1 and not any(
+                isinstance(p_, (ast.For, ast.While)) for p_ in _ancestors(y))
+        ok = flows_into(f, et, max_of_collection)
     bad = broken_accumulators(ctx, f)
     rep.put(ok and not bad, "S6", "agreement", "SimulatorBackend._process_start_event: completion time = running maximum of all result times (+ delay)", f,
             bad[0][0] if bad else push[0], "v = max(v, t) inside the loop over results; CompleteEvent pushed at v + delay",
